@@ -48,7 +48,7 @@ package leader
 //@ field kvElection.state              atomic write_under(mu) type string props C18 inv C18.state_domain: v == "INIT" || v == "CANDIDATE" || v == "LEADER" || v == "FOLLOWER" || v == "DEMOTED" || v == "STOPPED"
 //@ field kvElection.token              atomic write_under(mu) type string props C05,C01 inv C05.token_is_published: OwnTok(v) || (v == "" && !this.revSet)
 //@ field kvElection.leaderID           atomic type string props C18 onstore C18.leader_consistent_id: v == this.cfg.InstanceID || (held(this.mu) == 2 && !this.isLeader)
-//@ field kvElection.revision           atomic props C01,C05,C07,C18 inv C01.revision_is_own_write: Own(v) || (v == 0 && !this.revSet)
+//@ field kvElection.revision           atomic props C01,C05,C07,C18 inv C01.revision_is_own_write: Own(v) || (v == 0 && !this.revSet) onstore C05.revision_matches_token: held(this.mu) == 2 ==> PubTok(v) == this.token
 //@ field kvElection.lastHeartbeat      atomic type time.Time
 //@ field kvElection.lastTransition     atomic type time.Time
 //@ field kvElection.leaderStartTime    atomic type time.Time
@@ -144,12 +144,12 @@ package leader
 
 //@ iface KeyValue.Create(key, value, opts)
 //@   requires C01.key_is_group: key == e.key
-//@   requires C01.create_payload: IDOf(value) == e.cfg.InstanceID && PrioOf(value) == e.cfg.Priority && FreshTok(TokenOf(value)) && ParseOK(value)
+//@   requires C01+C05.create_payload: IDOf(value) == e.cfg.InstanceID && PrioOf(value) == e.cfg.Priority && FreshTok(TokenOf(value)) && ParseOK(value)
 //@   assumes result1 == nil ==> Own(result0) && result0 > 0 && PubTok(result0) == TokenOf(value) && PubID(result0) == IDOf(value) && OwnTok(TokenOf(value))
 
 //@ iface KeyValue.Update(key, value, rev, opts)
 //@   requires C01.key_is_group: key == e.key
-//@   requires C01.update_is_refresh_or_takeover: Refresh(e, value, rev) || Takeover(e, value, rev)
+//@   requires C01+C10+C05.update_is_refresh_or_takeover: Refresh(e, value, rev) || Takeover(e, value, rev)
 //@   assumes result1 == nil ==> Own(result0) && result0 > rev && PubTok(result0) == TokenOf(value) && PubID(result0) == IDOf(value) && OwnTok(TokenOf(value))
 
 //@ iface KeyValue.Get(key)
@@ -599,6 +599,11 @@ package leader
 //@   ghost revLoaded Bool = false
 //@   ghost heartbeat_failed Bool = false
 //@   ghost health_exhausted Bool = false
+//@   ghost leaderThisTick Bool = false
+//@   on recv ticker set leaderThisTick = false
+//@   on load kvElection.isLeader as l set leaderThisTick = l.value
+//@   on spawn heartbeatLoop$1 assert C01+C03+C07.refresh_only_while_leader: leaderThisTick
+//@   on call HealthChecker.Check assert C12.health_only_while_leader: leaderThisTick
 //@   on recv ticker set failed = false
 //@   on recv ticker set classified = false
 //@   on recv ticker set isPerm = false
@@ -781,7 +786,7 @@ package leader
 //@   on load kvElection.onDemote as l set demoteSet = l.value != nil
 //@   ensures C11.expiry_demotes: (d.election.connectionMonitor == nil || statusSeen == 1) && sawLeader ==> calls(becomeFollower) == 1 && (demoteSet ==> calls(onDemote) == 1)
 //@   ensures C11.no_demotion_if_reconnected: d.election.connectionMonitor != nil && statusSeen != 1 ==> calls(becomeFollower) == 0 && calls(onDemote) == 0
-//@   ensures C11.no_demotion_if_not_leader: !sawLeader ==> calls(becomeFollower) == 0 && calls(onDemote) == 0
+//@   ensures C11+C08.no_demotion_if_not_leader: !sawLeader ==> calls(becomeFollower) == 0 && calls(onDemote) == 0
 //@   ensures C08.demote_iff_claim_cleared: calls(onDemote) == ((cleared && demoteSet) ? 1 : 0)
 
 //@ func (d *disconnectHandler) stop()
@@ -822,6 +827,7 @@ package leader
 //@   on ret becomeFollower as r set cleared = r.cleared
 //@   on load kvElection.onDemote as l set demoteSet = l.value != nil
 //@   ensures C11.failed_verification_demotes: sawLeader ==> calls(becomeFollower) == 1 && (demoteSet ==> calls(onDemote) == 1)
+//@   ensures C11+C08.no_demotion_if_not_leader: !sawLeader ==> calls(becomeFollower) == 0 && calls(onDemote) == 0
 //@   ensures C08.demote_iff_claim_cleared: calls(onDemote) == ((cleared && demoteSet) ? 1 : 0)
 
 // monitor
